@@ -370,8 +370,9 @@ func checkSegEnc(hrp string, ver int, prog []byte) string {
 		il = "ok " + vlib.Hex([]byte(s))
 	}
 	mo := o.MustAsk(fmt.Sprintf("segenc %s %d %s", vlib.Hex([]byte(hrp)), ver, vlib.Hex(prog)))
-	rep := map[string]interface{}{"op": "segenc", "hrp": hrp, "ver": ver, "prog": vlib.Hex(prog), "impl": il, "model": mo}
-	valid := ver <= 16 && len(prog) >= 2 && len(prog) <= 40 && (ver != 0 || len(prog) == 20 || len(prog) == 32)
+	rep := map[string]interface{}{"op": "segenc", "hrp": hrp, "hrp_hex": vlib.Hex([]byte(hrp)), "ver": ver, "prog": vlib.Hex(prog), "impl": il, "model": mo}
+	valid := ver <= 16 && len(prog) >= 2 && len(prog) <= 40 && (ver != 0 || len(prog) == 20 || len(prog) == 32) &&
+		refHrpOK(hrp) && len(hrp)+7+1+(len(prog)*8+4)/5 <= 90
 	if valid != (s != "") {
 		r.PropFail("segenc-accept", fmt.Sprintf("SegwitEncode(%s,%d,%x) = %q, validity by BIP141/173 is %v", hrp, ver, prog, s, valid), rep)
 		return s
@@ -542,7 +543,7 @@ func checkB32(hrp string, data []byte, m bool) {
 		ms = "1"
 	}
 	mo := o.MustAsk(fmt.Sprintf("b32enc %s %s %s", vlib.Hex([]byte(hrp)), vlib.Hex(data), ms))
-	rep := map[string]interface{}{"op": "b32enc", "hrp": hrp, "data": vlib.Hex(data), "m": m, "impl": il, "model": mo}
+	rep := map[string]interface{}{"op": "b32enc", "hrp": hrp, "hrp_hex": vlib.Hex([]byte(hrp)), "data": vlib.Hex(data), "m": m, "impl": il, "model": mo}
 	if s != "" {
 		h2, d2, m2 := bech32.Decode(s)
 		if h2 != hrp || !bytes.Equal(d2, data) || m2 != m {
@@ -574,6 +575,12 @@ func checkB32(hrp string, data []byte, m bool) {
 	}
 	if il != mo {
 		r.TieFail("tie-b32enc", fmt.Sprintf("model/impl differ on bech32.Encode(%q,%x,%v)", hrp, data, m), rep)
+		return
+	}
+	// the two hrp loops as written (range over the code points, length test on the loop variable: Model/Bech32Str.lean)
+	if ms2 := o.MustAsk(fmt.Sprintf("b32src %s %s %s", vlib.Hex([]byte(hrp)), vlib.Hex(data), ms)); ms2 != il {
+		rep["model_src"] = ms2
+		r.TieFail("tie-b32src", fmt.Sprintf("loops-as-written model and impl differ on bech32.Encode(%q,%x,%v): impl=%q model=%q", hrp, data, m, il, ms2), rep)
 		return
 	}
 	r.TieOK()
@@ -884,6 +891,7 @@ func main() {
 		}
 	}
 	boundaryB32(g)
+	hrpStream(g)
 	b58Lengths(g)
 	hrpConfusion(g)
 	for _, s := range valid {
@@ -959,7 +967,7 @@ func main() {
 		"SHA-256 and RIPEMD-160 are modelled (Lean executable versions validated here against Go's), theorems are parametric in them",
 		"the independent reference decoder in this harness (refSegwitValid/refB58CheckValid) states BIP173/BIP350/Base58Check",
 	}
-	r.Finish("corpus of BIP173/350 vectors; exhaustive grid hrp{bc,tb} x version 0..17 x program length 0..41 (valid ones also upper-cased, plus checksummed strings with wrong variant / disturbed padding / extra symbol); all 256 Base58 version bytes; 1..4 random edits (substitution, insertion, deletion, case flip, swap, raw byte) of valid addresses; arbitrary short strings; raw base58/bech32 codec inputs; script->address forms (P2PKH, P2SH, P2PK 33/65, witness) and their one-edit neighbours; WIF strings: valid compressed/uncompressed for several version bytes, 1..4 random edits, wrong flag byte / wrong payload length / wrong checksum / flipped payload bit / invalid character / extra leading or trailing character; Base58Check objects that are not addresses offered as addresses (checksummed 26..40-byte payloads, wrapped address payloads, valid WIF keys, extended-key sized, too short); one BtcAddr object re-used over time (history.go: the callers' list_unspent/tap2old sequences, random idiom histories, raw histories; 2..30 steps per object, objects from all four constructors); several callers at once with nothing shared (concurrent.go: 2/4/8/16 goroutines, each with its own 24 encode->decode / decode->re-encode chains - P2PKH/P2SH/P2PK scripts, (version,hash) objects incl. leading-zero hashes, witness scripts, SegwitEncode/bech32.Encode inputs, typed valid addresses, raw Base58 byte strings, WIF keys - families b58addr/segwit/decode/raw58/wif/mixed, run for 120 (thorough 1500) rounds after a common start signal; plus the step-level Lean model of Encodeb58 under a random interleaving, oracle op b58sched); typed strings outside ASCII (unicode.go: accepted Base58Check / segwit / raw Base58 / Bech32 / WIF strings with 1, 2..4, every occurrence of one letter, or all characters replaced by a non-ASCII alias of the same character - code points congruent to it mod 256 in 2/3/4-byte encodings, mod 128, the byte c|0x80, over-long forms, full-width forms, Unicode case-fold relatives, inserted zero-width / blank code points - offered to every decoder; Go's range-over-string against its Lean model on UTF-8 boundary strings). distinct = distinct (operation,input) pairs; every generated case is non-trivial in that it reaches a decoder/encoder",
+	r.Finish("corpus of BIP173/350 vectors; exhaustive grid hrp{bc,tb} x version 0..17 x program length 0..41 (valid ones also upper-cased, plus checksummed strings with wrong variant / disturbed padding / extra symbol); all 256 Base58 version bytes; 1..4 random edits (substitution, insertion, deletion, case flip, swap, raw byte) of valid addresses; arbitrary short strings; raw base58/bech32 codec inputs; bech32.Encode / SegwitEncode with every kind of human-readable part (boundary.go hrpStream: empty, every byte value, multi-byte / over-long / invalid UTF-8, upper case, hrp+7+data around 90 with valid and with one invalid or multi-byte character, random over all bytes); script->address forms (P2PKH, P2SH, P2PK 33/65, witness) and their one-edit neighbours; WIF strings: valid compressed/uncompressed for several version bytes, 1..4 random edits, wrong flag byte / wrong payload length / wrong checksum / flipped payload bit / invalid character / extra leading or trailing character; Base58Check objects that are not addresses offered as addresses (checksummed 26..40-byte payloads, wrapped address payloads, valid WIF keys, extended-key sized, too short); one BtcAddr object re-used over time (history.go: the callers' list_unspent/tap2old sequences, random idiom histories, raw histories; 2..30 steps per object, objects from all four constructors); several callers at once with nothing shared (concurrent.go: 2/4/8/16 goroutines, each with its own 24 encode->decode / decode->re-encode chains - P2PKH/P2SH/P2PK scripts, (version,hash) objects incl. leading-zero hashes, witness scripts, SegwitEncode/bech32.Encode inputs, typed valid addresses, raw Base58 byte strings, WIF keys - families b58addr/segwit/decode/raw58/wif/refuse/mixed (refuse: strings invalid by the reference - 1..4 edits or one non-ASCII alias of a character of an accepted string - must be refused by NewAddrFromString / Decodeb58 / bech32.Decode / SegwitDecode / DecodePrivateAddr while other goroutines run their own jobs), run for 120 (thorough 1500) rounds after a common start signal; plus the step-level Lean model of Encodeb58 under a random interleaving, oracle op b58sched); typed strings outside ASCII (unicode.go: accepted Base58Check / segwit / raw Base58 / Bech32 / WIF strings with 1, 2..4, every occurrence of one letter, or all characters replaced by a non-ASCII alias of the same character - code points congruent to it mod 256 in 2/3/4-byte encodings, mod 128, the byte c|0x80, over-long forms, full-width forms, Unicode case-fold relatives, inserted zero-width / blank code points - offered to every decoder; Go's range-over-string against its Lean model on UTF-8 boundary strings). distinct = distinct (operation,input) pairs; every generated case is non-trivial in that it reaches a decoder/encoder",
 		"each case is run through the real gocoin functions, the Lean model (oracle_c15) and an independent reference; the property predicate (accepted iff valid; decoded script = denoted script; re-encoding = input up to Bech32 case; script->address->script; P2PK script -> P2PKH address of HASH160(key); WIF accepted iff Base58Check(ver‖key32[‖01]) and String() = input; every String()/OutScript() on a re-used object = the same call on a new object with the same exported fields, and = the denoted destination when the caches are coherent; every result a goroutine obtains while other goroutines run their own, unrelated calls = the reference value for its own arguments) is evaluated on the real code, model/impl equality is the tie for the Lean theorems in Props/C15.lean")
 }
 
@@ -979,7 +987,11 @@ func replay(path string) {
 		checkAddr("replay", string(vlib.UnHex(str("string_hex"))))
 	case "segenc":
 		v, _ := doc.Replay["ver"].(float64)
-		checkSegEnc(str("hrp"), int(v), vlib.UnHex(str("prog")))
+		hrp := str("hrp")
+		if _, ok := doc.Replay["hrp_hex"].(string); ok {
+			hrp = string(vlib.UnHex(str("hrp_hex")))
+		}
+		checkSegEnc(hrp, int(v), vlib.UnHex(str("prog")))
 	case "b58":
 		checkB58(vlib.UnHex(str("bytes")))
 	case "b58dec":
@@ -1030,7 +1042,11 @@ func replay(path string) {
 		checkRunes(string(vlib.UnHex(str("string_hex"))))
 	case "b32enc":
 		m, _ := doc.Replay["m"].(bool)
-		checkB32(str("hrp"), vlib.UnHex(str("data")), m)
+		hrp := str("hrp")
+		if _, ok := doc.Replay["hrp_hex"].(string); ok { // JSON cannot carry a non-UTF-8 hrp
+			hrp = string(vlib.UnHex(str("hrp_hex")))
+		}
+		checkB32(hrp, vlib.UnHex(str("data")), m)
 	case "segdec":
 		checkSegDec(str("hrp"), string(vlib.UnHex(str("string_hex"))))
 	case "b32dec":
